@@ -34,8 +34,10 @@ CONSTANTS Algos,     \* key algorithms for newkey_algo
           Gen        \* TRUE: carry the history and print complete behaviours
 
 Doms    == {"top", "second"}                                \* configurable signing domains
-Senders == {"top", "upper", "sub", "second", "other", "null"} \* sender classes ("upper" = top, upper-cased)
-DNames  == {"top", "sub", "second", "other"}                 \* what a d= tag can name
+\* sender classes: "upper" = top, upper-cased; "fold" = a foreign domain that differs from the configured
+\* "second" domain only by a full-case-folding expansion (sharp s against "ss"): not a configured domain
+Senders == {"top", "upper", "sub", "second", "other", "null", "fold"}
+DNames  == {"top", "sub", "second", "other", "fold"}         \* what a d= tag can name
 Configs == { [doms |-> <<"top">>, sub |-> FALSE], [doms |-> <<"top">>, sub |-> TRUE],
              [doms |-> <<"top", "second">>, sub |-> FALSE], [doms |-> <<"second", "top">>, sub |-> FALSE] }
 
